@@ -1,4 +1,5 @@
 import Altrios.Train
+import Altrios.Braking
 import Proofs.Lemmas.Basic
 import Proofs.Lemmas.Ledger
 import Proofs.Lemmas.BrakeL
@@ -27,6 +28,15 @@ import Mathlib.Data.List.Basic
   §4  friction brake bounds and the inductive brake-force invariant.
   §5  `walkCond` exit condition.
   §6  power bounds of an accepted step.
+  §7  the position advances by the trapezoid rule; one accepted step re-establishes the `idx_curr`
+      precondition of `calc_speeds` for the next one.
+  §8  `BrakingPoints::recalc` (model `Altrios/Braking.lean`): `C03_recalc_inv` — non-empty, first point
+      `(offset_end,0,0)`, last point = first speed point, `0 ≤ target ≤ limit` everywhere (this needs the
+      repaired `.min(speed_limit)`: `C03_recalc_unrepaired_counterexample`).  FALSE of the model, with
+      `ℚ` witnesses: monotone offsets (`C03_recalc_offsets_not_monotone`), `limit ≤ posted limit`
+      (`C03_recalc_limit_above_posted`, `C03_recalc_skips_short_restriction`), panic-freedom
+      (`C03_recalc_panic_counterexample`).  The safety facts of §1 therefore only assume `BPInvW`
+      (no ordering), which `recalc` does establish.
 
   Names `fTarget`, `fPosMax`, `lowClip`, `fmcNew`, `fRegenDyn`, `speed0`, … are the `let`-bound
   intermediates of the model's `slRequiredPwr`, given names in `Proofs/Lemmas/BrakeL.lean`
@@ -34,8 +44,8 @@ import Mathlib.Data.List.Basic
 -/
 set_option linter.unusedSectionVars false
 namespace Altrios.Proofs.C03
-open Altrios Altrios.Tr Altrios.Rs Altrios.CS Altrios.Proofs.Basic Altrios.Proofs.LedgerL
-  Altrios.Proofs.BrakeL
+open Altrios Altrios.Tr Altrios.Rs Altrios.CS Altrios.SP Altrios.Tpc Altrios.Brk Altrios.Proofs.Basic
+  Altrios.Proofs.LedgerL Altrios.Proofs.BrakeL
 
 variable {α : Type} [Field α] [LinearOrder α] [IsStrictOrderedRing α]
 
@@ -1047,6 +1057,178 @@ example : ∃ fb' bp' s', slRequiredPwr Ex.cQ Ex.sqrtQ 1000 Ex.csA Ex.fbQ Ex.bpQ
   exact ⟨fb', bp', s', h, Ex.bpQ_inv.weak, rfl, by decide +kernel, by decide +kernel, by decide +kernel,
     by decide +kernel, by decide +kernel, this.1, this.2⟩
 
+/-! ## §8  `BrakingPoints::recalc` (model: `Altrios/Braking.lean`) -/
+
+/-- **`recalc_inv`.**  Whatever `recalc` returns (any track, any speed points, any fuel)
+    * is non-empty, with `idx_curr` on its last point,
+    * starts with `(offset_end, 0, 0)`,
+    * has `0 ≤ target ≤ limit` at EVERY point — this is where the repaired line
+      `speed_target: bp_curr.speed_target.min(speed_limit)` matters
+      (`C03_recalc_unrepaired_counterexample`),
+    * ends with the FIRST speed point `(offset, |limit|, |limit|)` (or is just the first point when
+      there are no speed points).
+    Hence `BPInvW`, all that `C03_calcSpeeds_safe` / `C03_target_le_limit` need.
+    `0 ≤ dt` and `0 < mass_compound` are FORCED: with `dt·(F + res)/m < 0` the first curve point gets
+    `limit < 0 = target`.
+    NOT part of the invariant, because FALSE: monotone offsets (`C03_recalc_offsets_not_monotone`),
+    `limit ≤` the posted limit at the point's position (`C03_recalc_limit_above_posted`,
+    `C03_recalc_skips_short_restriction`). -/
+def C03_recalc_inv_statement : Prop :=
+  ∀ (half g rho : α) (grades curves : List (PRC α)) (sps : List (Pt α)) (offsetBegin offsetEnd : α)
+    (strap : ResStrap α) (s : TrainState α) (forceMax : α) (curveFuel : Nat) (bp : BrakingPoints α),
+    recalc half g rho grades curves sps offsetBegin offsetEnd strap s forceMax curveFuel = .ok bp →
+    0 ≤ s.k.dt →            -- FORCED
+    0 < massCompound s →    -- FORCED
+      BPInvW bp.points ∧ bp.idxCurr = bp.points.length - 1 ∧
+      bp.points[0]? = some ⟨offsetEnd, 0, 0⟩ ∧
+      (∀ sp, sps[0]? = some sp → bp.points[bp.idxCurr]? = some ⟨sp.off, |sp.spd|, |sp.spd|⟩) ∧
+      (sps = [] → bp.points = [⟨offsetEnd, 0, 0⟩])
+
+theorem getElem?_reverse_last (a : BrakingPoint α) (l : List (BrakingPoint α)) :
+    (a :: l).reverse[(a :: l).reverse.length - 1]? = some a := by
+  simp
+
+theorem C03_recalc_inv : C03_recalc_inv_statement (α := α) := by
+  intro half g rho grades curves sps offsetBegin offsetEnd strap s forceMax curveFuel bp h hdt hm
+  unfold recalc recalcWith at h
+  simp only [bind_ok, pure_ok] at h
+  obtain ⟨⟨strap1, r1⟩, hu, st', hout, rfl⟩ := h
+  have hmass : r1.massStatic = s.r.massStatic := updateRes_massStatic hu
+  have hinv0 : RcInv s.r.massStatic
+      ({ idx := sps.length, r := r1, strap := strap1, last := ⟨offsetEnd, 0, 0⟩, rest := [] } : RcState α) := by
+    refine ⟨?_, hmass⟩
+    intro p hp
+    simp only [List.mem_cons, List.not_mem_nil, or_false] at hp
+    subst hp; exact ⟨le_refl _, le_refl _⟩
+  obtain ⟨hI, ⟨l, hl⟩, hz, hpos⟩ := recalcOuter_inv half g rho grades curves sps offsetBegin forceMax
+    s.k.dt s.k.massRot s.r.massStatic hdt hm curveFuel _ _ _ hout hinv0
+  refine ⟨⟨by simp, ?_⟩, rfl, ?_, ?_, ?_⟩
+  · intro p hp
+    exact hI.bounds p (List.mem_reverse.mp hp)
+  · show (st'.last :: st'.rest).reverse[0]? = _
+    rw [hl]; simp
+  · intro sp hsp
+    have hlen : 0 < sps.length := (List.getElem?_eq_some_iff.mp hsp).1
+    obtain ⟨sp', hsp', hlast⟩ := hpos hlen
+    rw [hsp] at hsp'; cases hsp'
+    show (st'.last :: st'.rest).reverse[(st'.last :: st'.rest).reverse.length - 1]? = _
+    rw [getElem?_reverse_last, hlast, absv_eq_abs]
+  · intro hnil
+    have : st' = _ := hz (by simp [hnil])
+    show (st'.last :: st'.rest).reverse = _
+    rw [this]; rfl
+
+/-- after `recalc`, `calc_speeds` may be called for any train position at or after the first speed
+    point: the `idx_curr` precondition of `C03_calcSpeeds_safe` holds -/
+theorem C03_recalc_establishes_pre
+    (half g rho : α) (grades curves : List (PRC α)) (sps : List (Pt α)) (offsetBegin offsetEnd : α)
+    (strap : ResStrap α) (s : TrainState α) (forceMax : α) (curveFuel : Nat) (bp : BrakingPoints α)
+    (h : recalc half g rho grades curves sps offsetBegin offsetEnd strap s forceMax curveFuel = .ok bp)
+    (hdt : 0 ≤ s.k.dt) (hm : 0 < massCompound s) (sp : Pt α) (hsp : sps[0]? = some sp)
+    (offset : α) (hoff : sp.off ≤ offset) :
+    BPInvW bp.points ∧ ∃ pc, bp.points[bp.idxCurr]? = some pc ∧ pc.off ≤ offset := by
+  obtain ⟨hW, _, _, hlast, _⟩ := C03_recalc_inv half g rho grades curves sps offsetBegin offsetEnd strap s
+    forceMax curveFuel bp h hdt hm
+  exact ⟨hW, _, hlast sp hsp, hoff⟩
+
+/-! ### `ℚ` fixtures for §8: flat track, no resistance, 1000 kg, `dt = 1`, 5000 N of brake:
+    every curve step changes the speed by exactly 5 m/s -/
+namespace Ex
+
+def flatQ : List (PRC ℚ) := [⟨-5000, 0, 0⟩, ⟨20000, 0, 0⟩]
+def strapQ : ResStrap ℚ := ⟨0, 0, 0, 0, ⟨0, 0⟩, ⟨0, 0⟩⟩
+def sRQ : TrainState ℚ :=
+  ⟨⟨100, 0, 5, 100, 950, 9500, 0, 0, 0, 0, 0, 0, 0, 0, 0⟩, ⟨0, 0, 0, 0, 5, 5, 1, 50, 0, 0, 0, 0, 0, 0, 0⟩⟩
+/-- `recalc` on the fixture: speed points `sps`, path `[0, e]` -/
+def runQ (sps : List (Pt ℚ)) (e : ℚ) : Res (BrakingPoints ℚ) :=
+  recalc (1/2) (98/10) (1225/1000) flatQ flatQ sps 0 e strapQ sRQ 5000 1000
+/-- the same with the UNREPAIRED target rule `speed_target: bp_curr.speed_target` -/
+def runOldQ (sps : List (Pt ℚ)) (e : ℚ) : Res (BrakingPoints ℚ) :=
+  recalcWith (fun t _ => t) (1/2) (98/10) (1225/1000) flatQ flatQ sps 0 e strapQ sRQ 5000 1000
+
+/-- posted limits 5 on [0,450), 30 on [450,500), 10 from 500; end of path 600 -/
+def spsA : List (Pt ℚ) := [⟨0, 5⟩, ⟨450, 30⟩, ⟨500, 10⟩]
+def outA : List (BrakingPoint ℚ) :=
+  [⟨600, 0, 0⟩, ⟨1195/2, 5, 0⟩, ⟨590, 10, 0⟩, ⟨580, 10, 0⟩, ⟨500, 10, 10⟩, ⟨975/2, 15, 10⟩, ⟨470, 20, 10⟩,
+   ⟨895/2, 25, 10⟩, ⟨885/2, 5, 5⟩, ⟨875/2, 5, 5⟩, ⟨0, 5, 5⟩]
+def outAOld : List (BrakingPoint ℚ) :=
+  [⟨600, 0, 0⟩, ⟨1195/2, 5, 0⟩, ⟨590, 10, 0⟩, ⟨580, 10, 0⟩, ⟨500, 10, 10⟩, ⟨975/2, 15, 10⟩, ⟨470, 20, 10⟩,
+   ⟨895/2, 25, 10⟩, ⟨885/2, 5, 10⟩, ⟨875/2, 5, 10⟩, ⟨0, 5, 5⟩]
+
+end Ex
+
+/-- non-vacuity of `C03_recalc_inv` -/
+example : Ex.runQ Ex.spsA 600 = .ok ⟨Ex.outA, 10⟩ ∧ 0 ≤ Ex.sRQ.k.dt ∧ 0 < massCompound Ex.sRQ := by
+  refine ⟨by decide +kernel, by decide +kernel, by decide +kernel⟩
+
+/-- **The repaired defect, documented.**  WITHOUT `.min(speed_limit)` the braking curve that rises
+    from the 10 m/s stretch breaks into the slower 5 m/s stretch upstream with its old target:
+    points `(442.5, limit 5, target 10)` and `(437.5, 5, 10)` violate `target ≤ limit`, and
+    `calc_speeds` hands the controller a target of 10 m/s where the limit in force is 5 m/s.
+    WITH the repair the same input gives `(442.5, 5, 5)`, `(437.5, 5, 5)`. -/
+theorem C03_recalc_unrepaired_counterexample :
+    Ex.runOldQ Ex.spsA 600 = .ok ⟨Ex.outAOld, 10⟩ ∧
+    Ex.outAOld[8]? = some ⟨885/2, 5, 10⟩ ∧ ¬ ((10 : ℚ) ≤ 5) ∧
+    calcSpeeds ⟨Ex.outAOld, 10⟩ 443 5 5 = .ok (⟨Ex.outAOld, 8⟩, 5, 10) ∧
+    Ex.runQ Ex.spsA 600 = .ok ⟨Ex.outA, 10⟩ ∧
+    calcSpeeds ⟨Ex.outA, 10⟩ 443 5 5 = .ok (⟨Ex.outA, 8⟩, 5, 5) := by
+  refine ⟨by decide +kernel, rfl, by norm_num, by decide +kernel, by decide +kernel, by decide +kernel⟩
+
+/-- **FINDING (model): the limit handed out can exceed the POSTED limit.**  In the repaired output
+    above the curve point `(447.5, limit 25)` — the last one generated under the 30 m/s stretch —
+    lies 2.5 m inside the 5 m/s stretch `[0, 450)`: at offset 448 the posted limit is 5 but
+    `calc_speeds` answers limit 25 (target 10) and accepts a speed of 25 m/s without asserting.
+    (Up to one curve step `dt·v` of early acceleration when LEAVING a slow stretch.) -/
+theorem C03_recalc_limit_above_posted :
+    Ex.runQ Ex.spsA 600 = .ok ⟨Ex.outA, 10⟩ ∧
+    SP.val Ex.spsA 448 = 5 ∧
+    calcSpeeds ⟨Ex.outA, 10⟩ 448 25 5 = .ok (⟨Ex.outA, 7⟩, 25, 10) := by
+  refine ⟨by decide +kernel, by decide +kernel, by decide +kernel⟩
+
+namespace Ex
+/-- posted limits 5 on [0,400), 30 on [400,500), 10 from 500 -/
+def spsB : List (Pt ℚ) := [⟨0, 5⟩, ⟨400, 30⟩, ⟨500, 10⟩]
+def outB : List (BrakingPoint ℚ) :=
+  [⟨600, 0, 0⟩, ⟨1195/2, 5, 0⟩, ⟨590, 10, 0⟩, ⟨580, 10, 0⟩, ⟨500, 10, 10⟩, ⟨975/2, 15, 10⟩, ⟨470, 20, 10⟩,
+   ⟨895/2, 25, 10⟩, ⟨420, 30, 10⟩, ⟨390, 30, 10⟩, ⟨400, 30, 30⟩, ⟨0, 5, 5⟩]
+/-- a 5 m long 5 m/s restriction on [440,445) inside a 30 m/s stretch, 10 m/s from 500 -/
+def spsC : List (Pt ℚ) := [⟨0, 30⟩, ⟨440, 5⟩, ⟨445, 30⟩, ⟨500, 10⟩]
+def outC : List (BrakingPoint ℚ) :=
+  [⟨600, 0, 0⟩, ⟨1195/2, 5, 0⟩, ⟨590, 10, 0⟩, ⟨580, 10, 0⟩, ⟨500, 10, 10⟩, ⟨975/2, 15, 10⟩, ⟨470, 20, 10⟩,
+   ⟨895/2, 25, 10⟩, ⟨420, 30, 10⟩, ⟨390, 30, 10⟩, ⟨0, 30, 30⟩]
+end Ex
+
+/-- **FINDING (model): the offsets produced by `recalc` are NOT monotone.**  The curve's closing
+    point `(390, 30, 10)` overshoots the speed point `(400, 30, 30)` that is pushed right after it.
+    So `BPInv` (ordering) is NOT an invariant of `recalc`; DESIGN.md's "strictly decreasing offsets"
+    is false.  Harmless for `calc_speeds`' safety (`C03_calcSpeeds_safe` needs `BPInvW` only), but
+    the speed point `(400, 30, 30)` can never be the bracket: between 390 and 420 the target stays 10. -/
+theorem C03_recalc_offsets_not_monotone :
+    Ex.runQ Ex.spsB 600 = .ok ⟨Ex.outB, 11⟩ ∧
+    ¬ Ex.outB.Pairwise (fun a b => b.off ≤ a.off) ∧ ¬ BPInv Ex.outB ∧ BPInvW Ex.outB := by
+  have hno : ¬ Ex.outB.Pairwise (fun a b => b.off ≤ a.off) := by unfold Ex.outB; decide +kernel
+  refine ⟨by decide +kernel, hno, fun h => hno h.mono, ⟨by simp [Ex.outB], ?_⟩⟩
+  unfold Ex.outB; decide +kernel
+
+/-- **FINDING (model): a restriction shorter than one curve step is skipped altogether.**  The curve
+    steps from 447.5 to 420 over the 5 m/s restriction `[440, 445)`; the inner
+    `while bp_curr.offset <= speed_points[idx].offset { idx -= 1 }` skips BOTH of its speed points, no
+    braking point carries the limit 5, and at offset 442 (posted limit 5) `calc_speeds` answers limit
+    30 and lets a train doing 30 m/s pass without asserting. -/
+theorem C03_recalc_skips_short_restriction :
+    Ex.runQ Ex.spsC 600 = .ok ⟨Ex.outC, 10⟩ ∧
+    SP.val Ex.spsC 442 = 5 ∧ (∀ p ∈ Ex.outC, p.limit ≠ 5 ∨ 580 < p.off) ∧
+    calcSpeeds ⟨Ex.outC, 10⟩ 442 30 1 = .ok (⟨Ex.outC, 8⟩, 30, 10) := by
+  refine ⟨by decide +kernel, by decide +kernel, by unfold Ex.outC; decide +kernel, by decide +kernel⟩
+
+/-- **FINDING (model): `recalc` can panic.**  A curve point that lands EXACTLY on the first speed
+    point's offset (here `(0, 30, 10)` with `offset_begin = 0`) is not `< offset_begin`, so the loop
+    goes round once more and `while bp_curr.offset <= speed_points[0].offset { idx -= 1 }`
+    underflows `idx` (`attempt to subtract with overflow` / index out of bounds). -/
+theorem C03_recalc_panic_counterexample :
+    Ex.runQ [⟨0, 30⟩, ⟨80, 10⟩] 180 = .panic "underflow" := by
+  decide +kernel
+
 /-!
   ## What is NOT proved (and why)
 
@@ -1060,6 +1242,10 @@ example : ∃ fb' bp' s', slRequiredPwr Ex.cQ Ex.sqrtQ 1000 Ex.csA Ex.fbQ Ex.bpQ
     on real inputs (the assertion is reachable in the Rust code).
   * Termination of `walk_internal` and `offset ≤ offset_end` at exit (`C03_walk_exit` shows the loop
     also exits with the train past the end and still moving).
+  * For `recalc`: that every point's `limit` is at most the POSTED limit at the point's position is
+    FALSE in the model (§8), so "not above the limit in force at its position (posted restrictions…)"
+    does not follow from the braking-point limit even where that one is respected; termination of the
+    curve loop (it needs `dt > 0` and growing speeds) is not proved — the model takes fuel.
 -/
 
 end Altrios.Proofs.C03
